@@ -132,6 +132,7 @@ Definition jsonnum_table (x : str) : option str :=
   if str_eqb x (b "1") then Some (b "1") else if str_eqb x (b "-7") then Some (b "-7")
   else if str_eqb x (b "2.5") then Some (b "2.5") else if str_eqb x (b "1e3") then Some (b "1000")
   else if str_eqb x (b "0") then Some (b "0") else if str_eqb x (b "9007199254740993") then Some (b "9007199254740992")
+  else if str_eqb x (b "1e2") then Some (b "100") else if str_eqb x (b "99999999999999999999") then Some (b "100000000000000000000")
   else None.
 
 Definition dump_vres (r : vres (list (str * gval))) : str :=
